@@ -27,7 +27,7 @@ TInit ==
 TReset ==
     /\ Consume("reset")
     /\ mode' = Ev.mode /\ A' = Ev.A /\ AF' = EvAtt /\ ranges' = Ev.ranges
-    /\ B' = [s \in EvSids |-> IF Ev.mode = "policy" THEN {0, EvBud(s)} ELSE {EvBud(s)}]
+    /\ B' = [s \in EvSids |-> IF Ev.mode # "flows" THEN {0, EvBud(s)} ELSE {EvBud(s)}]
     /\ cnt' = [s \in EvSids |-> 0]
     /\ last' = [ev |-> "reset"]
 
@@ -38,7 +38,10 @@ TAdv == Consume("adv") /\ Adv(Ev.d)
 \* many other sequences were opened (their answers are not part of this history: Isolation)
 TBurst == Consume("burst") /\ UNCHANGED pvars
 
-TNext == TReset \/ TResp \/ TAdv \/ TBurst
+\* the same policies were applied again (new version, same retry remedies): nothing changes for the property
+TReload == Consume("reload") /\ UNCHANGED pvars
+
+TNext == TReset \/ TResp \/ TAdv \/ TBurst \/ TReload
 
 TraceSpec == TInit /\ [][TNext]_tvars
 
